@@ -5,9 +5,11 @@ import Mathlib.Data.Complex.Basic
 /-!
 # C18 — Lindbladian generators: property theorems
 
-All statements are about the definitions of `QModel/C18.lean` (the polymorphic core is instantiated at an
-arbitrary field `K` with an involution `star` and an element `ii`, `ii² = −1`; `ℂ` in particular — the driver
-runs the same definitions at complex rationals) and are unbounded in the dimension `d`.
+All statements are about the definitions of `QModel/C18.lean` and are unbounded in the dimension `d`. The polymorphic core is
+instantiated at an arbitrary field `K` with an involution `star` and an element `ii`, `ii² = −1`. The driver's scalar type
+`CRat` IS such a field (`CRat.instField`, `instStarRing`, `ii_mul_ii` in `QProofs/C18.lean`, built from the model's own
+instances), so these theorems hold literally for the executed functions (section `execinst` instantiates them); `ℂ` is
+another instance (used where an order / PSD statement is needed, through the embedding `CRat.toC` / `mapC`).
 `ONH0 B z s` is the implementation's `is_orthonormal_hermitian_0thprop_identity`.
 -/
 open Matrix
@@ -127,8 +129,9 @@ theorem from_hk_trace_zero (B : Basis K d) (h : Mat K d d) (k : Mat K (d * d - 1
     (act (cbFromHk B h k) rho).toM.trace = 0 :=
   trace_act_cbFromHk B h k hh hk rho
 
-/-- C18 "built from (H, K) ⇒ judged TP": the first row of the Hermitian-basis matrix of
-`generate_hs_from_hk` (before the float truncation, which keeps zeros) vanishes. -/
+/-- C18 "built from (H, K) ⇒ first row zero": the first row of the Hermitian-basis matrix of `generate_hs_from_hk` before
+the float truncation vanishes (any field). The verdict statement for the executed builder — truncation included, `is_tp`
+returns `true` — is `hsFromHk_isTp` below. -/
 theorem from_hk_row0 (B : Basis K d) (h : Mat K d d) (k : Mat K (d * d - 1) (d * d - 1))
     (hh : h.toMᴴ = h.toM) (hk : ∀ a b, star (k.get b a) = k.get a b)
     (z b : Fin (d * d)) (s : K) (hz : ∀ i j, (B.get z).get i j = if i = j then s else 0) :
@@ -265,11 +268,11 @@ theorem extract_j_of_rebuild (B : Basis K d) (z : Fin (d * d)) (s : K) (hB : ONH
   simp only [extract_j_coef_all B z s hB h j k hh hj]
   exact (complete_of_onh0 B z s hB j.toM).symm
 
-/-- C18 `parts_sum`: for every generator rebuilt from Hermitian `(H, J, K)` the h-, j- and k-parts computed
+/-- C18 `parts_sum` (`_partial`: only for generators of the form `rebuild(H, J, K)`, comp basis): for every generator rebuilt from Hermitian `(H, J, K)` the h-, j- and k-parts computed
 from the extracted matrices (`calc_h_part + calc_j_part + calc_k_part`, comp basis) act exactly as the generator
 itself, on every `ρ`, in every dimension. (That every Hermiticity-preserving generator is of the form
 `rebuild(H, J, K)` is not formalised; the oracle checks the clause on generic real `hs` as well.) -/
-theorem parts_sum (B : Basis K d) (z : Fin (d * d)) (s : K) (hB : ONH0 B z s)
+theorem parts_sum_partial (B : Basis K d) (z : Fin (d * d)) (s : K) (hB : ONH0 B z s)
     (hii : (ii : K) * ii = -1)
     (h j : Mat K d d) (k : Mat K (d * d - 1) (d * d - 1)) (hh : h.toMᴴ = h.toM) (hj : j.toMᴴ = j.toM)
     (rho : Mat K d d) :
@@ -290,6 +293,179 @@ theorem parts_sum (B : Basis K d) (z : Fin (d * d)) (s : K) (hB : ONH0 B z s)
   abel
 
 end matthm
+
+/-! ## the executed path: extraction goes through `convert_hs` to the comp basis and back -/
+section execpath
+variable {K : Type} [Field K] [StarRing K] [CharZero K] [HasI K] {d : Nat}
+
+/-- C18 `extract_rebuild` on the object the code actually holds: the HS matrix `hs = convert_hs(L_cb, comp, basis)` of the
+rebuilt generator. `calc_k_mat`, `calc_h_mat`, `calc_j_mat` first convert `hs` back (`toComp`); for an orthonormal basis
+that round trip is the identity (`toComp_toHerm`), so the extracted matrices are `(K, H − tr H/d, J)`. (Before the
+float truncation `_truncate_hs`, which the correspondence ties.) -/
+theorem extract_of_rebuild_hs (B : Basis K d) (z : Fin (d * d)) (s : K) (hB : ONH0 B z s) (hii : (ii : K) * ii = -1)
+    (h j : Mat K d d) (k : Mat K (d * d - 1) (d * d - 1)) (hh : h.toMᴴ = h.toM) (hj : j.toMᴴ = j.toM) :
+    calcKMat B (toHerm B (cbFromHjk B h j k)) = k ∧
+    (calcHMat B (toHerm B (cbFromHjk B h j k))).toM
+        = h.toM - (h.toM.trace / (d : K)) • (1 : Matrix (Fin d) (Fin d) K) ∧
+    (calcJMat B (toHerm B (cbFromHjk B h j k))).toM = j.toM := by
+  simp only [calcKMat, calcHMat, calcJMat, toComp_toHerm B z s hB]
+  exact ⟨extract_k_of_rebuild B z s hB h j k hh hj, extract_h_of_rebuild B z s hB hii h j k hh hj,
+    extract_j_of_rebuild B z s hB h j k hh hj⟩
+
+/-- the round trip itself, as a property theorem: `convert_hs` to the Hermitian basis and back is the identity. -/
+theorem convert_hs_roundtrip (B : Basis K d) (z : Fin (d * d)) (s : K) (hB : ONH0 B z s)
+    (L : Mat K (d * d) (d * d)) : toComp B (toHerm B L) = L :=
+  toComp_toHerm B z s hB L
+end execpath
+
+/-! ## the executed scalars: the theorems above hold literally for the driver's instance `CRat` -/
+section execinst
+variable {d : Nat}
+
+/-- C18: `CRat` (the complex rationals the driver computes with; every float is one) is a field with involution and
+`ii² = −1` (`QProofs/C18.lean`, built from the model's own `Add/Mul/Div/…` instances), so every theorem of this file
+stated for an arbitrary `[Field K] [StarRing K] [CharZero K]` is a theorem about the executed functions. Instance: -/
+theorem extract_of_rebuild_hs_exec (B : Basis CRat d) (z : Fin (d * d)) (s : CRat) (hB : ONH0 B z s)
+    (h j : Mat CRat d d) (k : Mat CRat (d * d - 1) (d * d - 1)) (hh : h.toMᴴ = h.toM) (hj : j.toMᴴ = j.toM) :
+    calcKMat B (toHerm B (cbFromHjk B h j k)) = k :=
+  (extract_of_rebuild_hs B z s hB CRat.ii_mul_ii h j k hh hj).1
+
+/-- C18 inequality projection, dissipator of the result: `calc_proj_ineq_constraint` rebuilds from the extracted
+`(h, j)` and the clipped `K' = clipK λ V`; for Hermitian `(h, j)` the dissipator matrix of the rebuilt generator — what a
+later `is_cp` looks at — is exactly `K'` (executed instance, before truncation). -/
+theorem projIneq_dissipator (B : Basis CRat d) (z : Fin (d * d)) (s : CRat) (hB : ONH0 B z s)
+    (h j : Mat CRat d d) (lam : Vec CRat (d * d - 1)) (V : Mat CRat (d * d - 1) (d * d - 1))
+    (hh : h.toMᴴ = h.toM) (hj : j.toMᴴ = j.toM) :
+    calcKMat B (toHerm B (cbFromHjk B h j (clipK lam V))) = clipK lam V :=
+  extract_of_rebuild_hs_exec B z s hB h j _ hh hj
+
+open scoped ComplexOrder in
+/-- C18 inequality projection "returns a physical-dissipator generator": the clipped matrix
+`V·diag(λ with negatives zeroed)·Vᴴ` is positive semidefinite (as a complex matrix) whenever the eigenvalues numpy returned
+are real — for ANY `V`, all sizes. -/
+theorem clipK_psd {n : Nat} (lam : Vec CRat n) (V : Mat CRat n n) (hre : ∀ i, (lam.get i).im = 0) :
+    (mapC (clipK lam V)).PosSemidef :=
+  mapC_clipK_psd lam V hre
+
+/-- C18 inequality projection "leaves physical generators unchanged" (`_partial`: the K-level statement): if no
+eigenvalue is negative nothing is clipped, the rebuilt dissipator matrix is `V·diag(λ)·Vᴴ` — numpy's reconstruction of the
+extracted `K` itself. Together with `parts_sum_partial` (rebuild of the extracted `(h, j, K)` acts as the generator) this is
+the fixed-point property; the eigen-decomposition contract `K = V diag λ Vᴴ` and the float truncation are not modelled. -/
+theorem clipK_fix_partial {n : Nat} (lam : Vec CRat n) (V : Mat CRat n n) (h : ∀ i, cltZero (lam.get i) = false) :
+    clipK lam V = (V.mul (diagC lam)).mul (adj V) := by
+  unfold clipK
+  have : (Vec.ofFn fun i => if cltZero (lam.get i) then (0 : CRat) else lam.get i) = lam := by
+    apply Vec.ext'; intro i; simp [h i]
+  rw [this]
+
+/-- C18 `is_cp` verdict wiring: `mutil.is_positive_semidefinite(k, atol)` with numpy's `eigvalsh` result as a parameter is
+`true` iff `k` is Hermitian within `atol` (entrywise modulus) and every eigenvalue is within `atol` of 0 or non-negative;
+`isCp` applies it to `calc_k_mat` of the generator. -/
+theorem isPsdVerdict_iff {n : Nat} (k : Mat CRat n n) (eigs : List Rat) (atol : Rat) :
+    isPsdVerdict k eigs atol = true ↔ isHermitian k atol = true ∧ ∀ e ∈ eigs, rabs e ≤ atol ∨ 0 ≤ e := by
+  simp [isPsdVerdict, Bool.and_eq_true, List.all_eq_true]
+
+theorem isCp_iff (B : Basis CRat d) (hs : Mat Rat (d * d) (d * d)) (eigs : List Rat) (atol : Rat) :
+    isCp B hs eigs atol = true ↔
+      isHermitian (calcKMat B (embed hs)) atol = true ∧ ∀ e ∈ eigs, rabs e ≤ atol ∨ 0 ≤ e :=
+  isPsdVerdict_iff _ _ _
+
+/-- `choiCb` is the Choi matrix of the action: entry `((i,k),(j,l))` is `Φ(E_ij)[k,l]`. -/
+theorem choiCb_get (L : Mat CRat (d * d) (d * d)) (i j k l : Fin d) :
+    (choiCb L).get (pr i k) (pr j l)
+      = (act L (Mat.ofFn fun a b => if a = i ∧ b = j then 1 else 0)).get k l := by
+  simp only [choiCb, Mat.get_ofFn, p1_pr, p2_pr, act_get]
+  rw [Finset.sum_eq_single i, Finset.sum_eq_single j] <;> simp_all
+
+/-- C18 "built from (H, K) ⇒ judged TP", executed functions: if `generate_hs_from_hk` (model `hsFromHk`, exact Hermitian
+`h`, `k`, basis with `B_0 = s·1`) returns `M`, then `is_tp(M)` holds for every `atol ≥ 0` — the float truncation keeps
+zeros. -/
+theorem hsFromHk_isTp (B : Basis CRat d) (h : Mat CRat d d) (k : Mat CRat (d * d - 1) (d * d - 1))
+    (hh : h.toMᴴ = h.toM) (hk : ∀ a b, star (k.get b a) = k.get a b)
+    (z : Fin (d * d)) (hz0 : z.val = 0) (s : CRat) (hz : ∀ i j, (B.get z).get i j = if i = j then s else 0)
+    (eps atol atol' : Rat) (hat : 0 ≤ atol') (M : Mat Rat (d * d) (d * d))
+    (hM : hsFromHk B h k eps atol = .ok M) : isTp M atol' = true := by
+  have hrow : ∀ b, (toHerm B (cbFromHk B h k)).get z b = 0 := fun b => from_hk_row0 B h k hh hk z b s hz
+  have hT : truncateHs (toHerm B (cbFromHk B h k)) eps = .ok M := by
+    by_cases h1 : isHermitian h atol = true <;> by_cases h2 : isHermitian k atol = true <;>
+      simp [hsFromHk, h1, h2, bind, Except.bind] at hM
+    exact hM
+  unfold truncateHs at hT
+  split_ifs at hT with hbad
+  injection hT with hT
+  subst hT
+  rw [isTp_iff]
+  intro i j hi
+  have hiz : i = z := Fin.ext (hi.trans hz0.symm)
+  subst hiz
+  have hre : ((toHerm B (cbFromHk B h k)).get i j).re = 0 := by rw [hrow j]; rfl
+  simp [hre, rabs, hat]
+end execinst
+
+example : QGen.C18.kLoopStartRow = 1 ∧ QGen.C18.kLoopStartCol = 1 := ⟨rfl, rfl⟩
+
+/-- non-degenerate instance (one qubit, normalised Pauli basis `σ_a/√2` over `ℂ`, `H = X`, `J = 1`, `K = 1₃`): the
+extraction theorems, the parts sum and the CP criterion with all sums non-empty -/
+example := extract_of_rebuild_hs basisPauli _ sP onh0_basisPauli Complex.I_mul_I matX Mat.one
+  (Mat.one : Mat ℂ (2 * 2 - 1) (2 * 2 - 1)) matX_herm (by simp)
+example := parts_sum_partial basisPauli _ sP onh0_basisPauli Complex.I_mul_I matX Mat.one
+  (Mat.one : Mat ℂ (2 * 2 - 1) (2 * 2 - 1)) matX_herm (by simp) matX
+example := gksl_action_hk basisPauli matX (Mat.one : Mat ℂ (2 * 2 - 1) (2 * 2 - 1)) matX_herm (by intro a b; simp [eq_comm]) matX
+
+/-! ## what the jump-operator builders do, and the H-only / K-only builders -/
+section jumpthm
+variable {K : Type} [Field K] [StarRing K] [CharZero K] [HasI K] {d : Nat}
+
+/-- C18 jump operators, k part (positive statement, any non-empty list — 1..d² and beyond): `generate_k_part_cb_from_jump_operators`
+acts as `ρ ↦ Σ_c c ρ c†`. -/
+theorem jump_k_part_action (c : Mat K d d) (cs : List (Mat K d d)) (rho : Mat K d d) :
+    ∃ L, kPartCbFromJump (c :: cs) = some L ∧
+      (act L rho).toM = ((c :: cs).map fun x => x.toM * rho.toM * x.toMᴴ).sum := by
+  obtain ⟨L, hL, hact⟩ := act_lsumM_map (fun x => kron x (conjM x)) c cs rho
+  refine ⟨L, hL, ?_⟩
+  rw [hact]
+  congr 1
+  apply List.map_congr_left; intro x _
+  rw [act_kron, toM_conjM_transpose]
+
+/-- C18 jump operators, j part AS CODED (D13): `generate_j_part_cb_from_jump_operators` acts as `ρ ↦ −½ Σ_c (cρ + ρc†)` — built
+from `c`, not from `c†c`. -/
+theorem jump_j_part_action_coded (c : Mat K d d) (cs : List (Mat K d d)) (rho : Mat K d d) :
+    ∃ L, jPartCbFromJump (c :: cs) = some L ∧
+      (act L rho).toM = (-(1 / (two : K))) • ((c :: cs).map fun x => x.toM * rho.toM + rho.toM * x.toMᴴ).sum := by
+  obtain ⟨L, hL, hact⟩ := act_lsumM_map (fun x => (kron x Mat.one).add (kron Mat.one (conjM x))) c cs rho
+  refine ⟨L.smul (-(1 / two)), by unfold jPartCbFromJump; rw [hL]; rfl, ?_⟩
+  rw [act_smul, hact]
+  congr 2
+  apply List.map_congr_left; intro x _
+  rw [act_add, act_kron_one_right, act_kron_one_left, toM_conjM_transpose]
+
+/-- the GKSL anti-commutator part (the specification side of D13): `ρ ↦ −½ Σ_c (c†c ρ + ρ c†c)`. -/
+theorem jump_j_part_action_gksl (c : Mat K d d) (cs : List (Mat K d d)) (rho : Mat K d d) :
+    ∃ L, jPartCbFromJumpGksl (c :: cs) = some L ∧
+      (act L rho).toM = (-(1 / (two : K))) •
+        ((c :: cs).map fun x => x.toMᴴ * x.toM * rho.toM + rho.toM * (x.toMᴴ * x.toM)).sum := by
+  obtain ⟨L, hL, hact⟩ := act_lsumM_map
+    (fun x => (kron ((adj x).mul x) Mat.one).add (kron Mat.one (conjM ((adj x).mul x)))) c cs rho
+  refine ⟨L.smul (-(1 / two)), by unfold jPartCbFromJumpGksl; rw [hL]; rfl, ?_⟩
+  rw [act_smul, hact]
+  congr 2
+  apply List.map_congr_left; intro x _
+  rw [act_add, act_kron_one_right, act_kron_one_left, toM_conjM_transpose, Mat.toM_mul, toM_adj,
+    Matrix.conjTranspose_mul, Matrix.conjTranspose_conjTranspose]
+
+/-- C18 `generate_hs_from_h`: the H-only builder acts as `ρ ↦ −i(Hρ − ρH†)` (`= −i[H,ρ]` for Hermitian `H`). -/
+theorem from_h_action (h rho : Mat K d d) :
+    (act (cbFromH h) rho).toM = (-(ii : K)) • (h.toM * rho.toM - rho.toM * h.toMᴴ) :=
+  act_hPart h rho
+
+/-- C18 `generate_hs_from_k`: the K-only builder is the `(H, K)` builder at `H = 0`. -/
+theorem from_k_action (B : Basis K d) (k : Mat K (d * d - 1) (d * d - 1)) (rho : Mat K d d) :
+    (act (cbFromK B k) rho).toM = (act (cbFromHk B Mat.zero k) rho).toM := by
+  unfold cbFromK cbFromHk
+  rw [act_add, act_add, act_add, act_hPart]
+  simp
+end jumpthm
 
 section cpthm
 open scoped ComplexOrder
@@ -316,6 +492,10 @@ open scoped ComplexOrder in
 example : ((choiCb (kPart basis1 (Mat.zero : Mat ℂ (1 * 1 - 1) (1 * 1 - 1)))).toM.PosSemidef ↔
     (Mat.zero : Mat ℂ (1 * 1 - 1) (1 * 1 - 1)).toM.PosSemidef) :=
   cp_iff_K_psd basis1 _ 1 onh0_basis1 _
+
+open scoped ComplexOrder in
+example : (choiCb (kPart basisPauli (Mat.one : Mat ℂ (2 * 2 - 1) (2 * 2 - 1)))).toM.PosSemidef :=
+  (cp_iff_K_psd basisPauli _ sP onh0_basisPauli _).mpr (by simpa using Matrix.PosSemidef.one)
 
 section expthm
 variable {R : Type} [Field R] {n : Nat}
